@@ -473,12 +473,14 @@ class IRnode:
     #   ret = some_function(foo)
     #   return builder.resolve(ret)
     # ```
-    def cache_when_complex(self, name):
+    def cache_when_complex(self, name, always=False):
         # for caching purposes, see if the ir_node will be optimized
         # because a non-literal expr could turn into a literal,
         # (e.g. `(add 1 2)`)
         # TODO this could really be moved into optimizer.py
-        should_inline = not self._optimized.is_complex_ir
+        # always: the caller assigns to the variable (`set`), so it must
+        # not be inlined
+        should_inline = not always and not self._optimized.is_complex_ir
 
         return _WithBuilder(self, name, should_inline)
 
